@@ -408,6 +408,7 @@ func TestVerifC03_cbd(t *testing.T) {
 	if !full() {
 		r.NotExhaustive("observed CBD input coverage incomplete when the seed budget ended")
 	}
+	r.NotExhaustive("(seed, nonce) pairs come from a fixed enumerated sequence; completeness is claimed only for the observed CBD input-bit pattern classes listed in the rule")
 	r.RequireCounter("cbd2_(byte offset, byte value) seen", 128*256)
 	r.RequireCounter("cbd3_(coefficient, 6-bit pattern) seen", 256*64)
 	r.RequireCounter("cbd3_(coefficient pair, 12-bit pattern) seen", 128*4096)
